@@ -249,3 +249,14 @@ Theorem delimited_self_default_is_source : forall fmt format c ocn,
   delimited_self fmt format c [TAB] None None ocn = to_tsv_text fmt format c (mkO3 None None ocn).
 Proof. exact delimited_self_gen_default_is_source. Qed.
 Print Assumptions delimited_self_default_is_source.
+
+(* the header search of the reader (Table._extract_data_from_tsv, first loop: blank lines, comment
+   lines, where the header comes from and where the data start), regenerated into
+   Gen/TsvReadGen.v, is find_header for every list of lines; the counter of non-blank lines the
+   loop leaves behind (i) is not used afterwards *)
+From BiomV Require Import Gen.TsvReadGen Proofs.GenBridgeTsvReadProofs.
+Theorem extract_header_is_source : forall lines,
+  exists i, extract_header lines [TAB]
+            = ROk (fst (find_header lines None 0%nat), i, snd (find_header lines None 0%nat)).
+Proof. exact extract_header_gen_is_source. Qed.
+Print Assumptions extract_header_is_source.
